@@ -128,3 +128,66 @@ package kfmt
 //@   loop 3 (blockEnd < fmtLen) invariant dir: 0 <= blockEnd && blockEnd <= fmtLen && 0 <= nextArgIndex && nextArgIndex <= len(args) && bufsOK() && fmtLen == len(format)
 //@   loop 4 (i < blockEnd) invariant tail: blockStart <= i && 0 <= blockStart && blockEnd <= fmtLen && bufsOK()
 //@   loop 5 (nextArgIndex < len(args)) invariant extra: bufsOK()
+
+// ---- early-boot ring buffer (C16) -----------------------------------------------------------
+// abstract view: rlen(rb) bytes, byte i (oldest first) is view(rb, i)
+//@ pred wfRB(rb *ringBuffer) = rb != nil && rb.rIndex >= 0 && rb.rIndex < 2048 && rb.wIndex >= 0 && rb.wIndex < 2048
+//@ spec rlen(rb *ringBuffer) int = (rb.wIndex - rb.rIndex) & 2047
+//@ spec view(rb *ringBuffer, i int) uint8 = rb.buffer[(rb.rIndex + i) & 2047]
+
+// Read hands out the oldest bytes, at most up to the physical end of the array, and removes them.
+// ASSUMED: the standard library's io.EOF is non-nil (nobody reassigns it).
+//@ func (rb *ringBuffer) Read(p []byte) (n int, err error)
+//@   property C16
+//@   requires wfRB(rb) && !isnil(p) && len(p) > 0 && !sameobj(p, rb.buffer[0:1]) && !isnil(io.EOF)
+//@   modifies rb.rIndex, elems(uint8)
+//@   ensures wf: wfRB(rb) && rb.wIndex == old(rb.wIndex)
+//@   ensures empty: old(rlen(rb)) == 0 ==> n == 0 && !isnil(err) && rb.rIndex == old(rb.rIndex)
+//@   ensures some: old(rlen(rb)) != 0 ==> isnil(err) && n > 0 && n <= len(p) && n <= old(rlen(rb)) && rlen(rb) == old(rlen(rb)) - n
+//@   ensures bytes: forall(i, int, 0 <= i && i < n ==> p[i] == old(view(rb, i)))
+//@   ensures rest: forall(i, int, 0 <= i && i < rlen(rb) ==> view(rb, i) == old(view(rb, i + n)))
+
+// Write appends p; once more than 2047 bytes are held the oldest are dropped first. The loop
+// invariant is positional (which physical slot holds which byte of p); the postconditions
+// restate it over the abstract view. dropped(l, k): how many of the l held bytes followed by k
+// new ones fall off the front (written without l+k, which may exceed the int range).
+//@ spec dropped(l int, k int) int = ite(k > 2047 - l, k - (2047 - l), 0)
+//@ func (rb *ringBuffer) Write(p []byte) (n int, err error)
+//@   property C16
+//@   requires wfRB(rb) && !sameobj(p, rb.buffer[0:1])
+//@   modifies rb.rIndex, rb.wIndex, elems(uint8)
+//@   loop 1 (range p) invariant idx: rangeindex >= -1 && rangeindex < len(p) && wfRB(rb) && rb.wIndex == (old(rb.wIndex) + rangeindex + 1) & 2047
+//@   loop 1 invariant rd: (rangeindex + 1 <= 2047 - old(rlen(rb)) ==> rb.rIndex == old(rb.rIndex)) && (rangeindex + 1 > 2047 - old(rlen(rb)) ==> rb.rIndex == (rb.wIndex + 1) & 2047)
+//@   loop 1 invariant src: forall(m, int, 0 <= m && m < len(p) ==> p[m] == old(p[m]))
+//@   loop 1 invariant new: forall(m, int, 0 <= m && m <= rangeindex && rangeindex - m < 2048 ==> rb.buffer[(old(rb.wIndex) + m) & 2047] == p[m])
+//@   loop 1 invariant kept: forall(s, int, 0 <= s && s < 2048 && ((s - old(rb.wIndex)) & 2047) > rangeindex ==> rb.buffer[s] == old(rb.buffer[s]))
+//@   ensures ret: n == len(p) && isnil(err) && wfRB(rb)
+//@   ensures src: forall(m, int, 0 <= m && m < len(p) ==> p[m] == old(p[m]))
+//@   ensures len: rlen(rb) == old(rlen(rb)) + len(p) - dropped(old(rlen(rb)), len(p))
+//@   ensures oldkept: len(p) <= 2047 - old(rlen(rb)) ==> forall(j, int, 0 <= j && j < old(rlen(rb)) ==> view(rb, j) == old(view(rb, j)))
+//@   ensures oldshift: len(p) > 2047 - old(rlen(rb)) ==> forall(j, int, 0 <= j && j < old(rlen(rb)) - dropped(old(rlen(rb)), len(p)) ==> view(rb, j) == old(view(rb, j + dropped(old(rlen(rb)), len(p)))))
+//@   ensures newest: forall(m, int, 0 <= m && m < len(p) && len(p) - m <= 2047 ==> view(rb, rlen(rb) - (len(p) - m)) == p[m])
+
+// ---- hand-over of the early log to the first sink (C16) --------------------------------------
+// io.Copy is standard-library code outside the engine's reach (32 KiB scratch allocation, two
+// optional-interface probes); ASSUMED: with the ring buffer as its source it calls Read until
+// io.EOF and passes every chunk to dst.Write in order, so - by the contracts of Read proved
+// above - the log grows by exactly the held bytes, oldest first, and the ring is left empty.
+//@ func io.Copy(dst io.Writer, src io.Reader) (written int64, err error)
+//@   trusted
+//@   requires !isnil(dst) && typeis(src, *ringBuffer) && wfRB(unbox(src, *ringBuffer))
+//@   modifies ringBuffer.rIndex, elems(uint8), outLen, out
+//@   ensures wfRB(unbox(src, *ringBuffer)) && rlen(unbox(src, *ringBuffer)) == 0
+//@   ensures outLen == old(outLen) + old(rlen(unbox(src, *ringBuffer)))
+//@   ensures forall(j, int, out[j] == ite(inLog(j, old(outLen), old(rlen(unbox(src, *ringBuffer)))), old(view(unbox(src, *ringBuffer), j - old(outLen))), old(out)[j]))
+
+// SetOutputSink: the new sink is installed first, then - for a non-nil sink only - everything
+// the ring holds reaches the log exactly once, in order, and the ring is left empty, so later
+// output follows it; a nil sink leaves the ring and the log untouched
+//@ func SetOutputSink(w io.Writer)
+//@   property C16
+//@   requires wfRB(&earlyPrintBuffer)
+//@   modifies outputSink, ringBuffer.rIndex, elems(uint8), outLen, out
+//@   ensures sink: outputSink == w
+//@   ensures drained: !isnil(w) ==> rlen(&earlyPrintBuffer) == 0 && outLen == old(outLen) + old(rlen(&earlyPrintBuffer)) && forall(j, int, out[j] == ite(inLog(j, old(outLen), old(rlen(&earlyPrintBuffer))), old(view(&earlyPrintBuffer, j - old(outLen))), old(out)[j]))
+//@   ensures nosink: isnil(w) ==> outLen == old(outLen) && out == old(out) && earlyPrintBuffer.rIndex == old(earlyPrintBuffer.rIndex)
